@@ -26,8 +26,17 @@ import sys
 def sh(cmd, cwd=None, env=None, timeout=3600):
     e = dict(os.environ)
     e.update(env or {})
-    p = subprocess.run(cmd, shell=True, cwd=cwd, env=e, stdout=subprocess.PIPE, stderr=subprocess.STDOUT, text=True, timeout=timeout)
-    return p.returncode, p.stdout
+    # own process group, so that a timeout takes the whole tree down (check.py, cargo, driver shards)
+    p = subprocess.Popen(cmd, shell=True, cwd=cwd, env=e, stdout=subprocess.PIPE, stderr=subprocess.STDOUT, text=True,
+                         start_new_session=True)
+    try:
+        out, _ = p.communicate(timeout=timeout)
+    except subprocess.TimeoutExpired:
+        import signal
+        os.killpg(p.pid, signal.SIGKILL)
+        out, _ = p.communicate()
+        return 124, (out or "") + "\nTIMEOUT after %ds" % timeout
+    return p.returncode, out
 
 
 def confirm(mdir, wt):
